@@ -126,7 +126,7 @@ def h_reps(i: int, j: int, pos: int) -> bool:
 
 
 # ------------------------------------------------------------------ coherence over histories
-STEPS = ['fp(v)', 'fp(t)', 'fp(view)', 'v[i]=x', 'v[slice]=seq', 'v[mask]=x', 'v[idx]=seq', 'v promote', 'v[i]=None', 't[i,j]=x', 't[i]=row', 't[:,j]=col', 'view[i]=x',
+STEPS = ['fp(v)', 'fp(t)', 'fp(view)', 'v[i]=x', 'v[slice]=seq', 'v[mask]=x', 'v[idx]=seq', 'v[idx dup]=seq', 'v[vec dup]=seq', 'v promote', 'v[i]=None', 't[i,j]=x', 't[i]=row', 't[:,j]=col', 'view[i]=x',
          't.a=vec', 't region', 'read-only', 'failed write', 'rename']
 
 
@@ -151,6 +151,8 @@ def _coh_body(steps, poss):
             elif st == 'v[slice]=seq': v[p:p + 2] = [200 + k, 201 + k][:len(range(*slice(p, p + 2).indices(3)))]
             elif st == 'v[mask]=x': v[[i == p for i in range(3)]] = 300 + k
             elif st == 'v[idx]=seq': v[[p, (p + 1) % 3]] = [400 + k, 401 + k]
+            elif st == 'v[idx dup]=seq': v[[p, p]] = [410 + k, 411 + k]
+            elif st == 'v[vec dup]=seq': v[Vector([p, (p + 1) % 3, p])] = [420 + k, 421 + k, 422 + k]
             elif st == 'v promote': v[p] = 0.5 + k
             elif st == 'v[i]=None': v[p] = None
             elif st == 't[i,j]=x': t[p, p % 2] = 500 + k
@@ -176,7 +178,8 @@ def _coh_body(steps, poss):
             return H.fail('history %r: step %s raised %r' % (steps, st, e))
         if st == 't.a=vec':
             pass
-        for nm, o in live.items():
+        # every object is asked twice, in both orders (a table asked after its column view may behave differently from one asked before)
+        for nm, o in list(live.items()) + list(reversed(list(live.items()))):
             fresh = rebuild(o).fingerprint()
             got = o.fingerprint()
             if got != fresh:
@@ -229,7 +232,7 @@ def obligations(tier):
                     smoke=[[0, 1, 0], [6, 8, 2]]))
     for s0 in range(len(STEPS)):
         obs.append(dict(name='coherent[H=2,first=%s]' % STEPS[s0], fn='h_coherent', config={'s0': s0, 'H': 2}, budget=90 if q else 300,
-                        bounds='first step fixed per job, every second step of the 18-step alphabet, every position; vector, table and a live column view compared with freshly built objects after every step',
+                        bounds='first step fixed per job, every second step of the 20-step alphabet, every position; vector, table and a live column view compared with freshly built objects after every step',
                         smoke=[[s0, 0, 0, 1, 1, 0], [s0, 12, 0, 0, 2, 0]]))
         if not q:
             obs.append(dict(name='coherent[H=3,first=%s]' % STEPS[s0], fn='h_coherent', config={'s0': s0, 'H': 3}, budget=1200,
